@@ -66,6 +66,11 @@ def table_fn(table):
     return f
 
 
+def _bound(case, k):
+    """search bounds as the user may pass them: float arrays, or integer-typed (jnp.asarray(-10)) when int_bounds is set"""
+    return jnp.asarray(int(case[k])) if case.get("int_bounds") else jnp.asarray(case[k])
+
+
 def _bisect_case(case):
     """executed in a child process (so that a non-terminating loop can be detected by timeout)"""
     from flowjax import bisection_search as bs
@@ -85,7 +90,7 @@ def _bisect_case(case):
             return a * v + jnp.tanh(Bm @ v) + 0.1 * v**3
 
         ystar = tri(xstar)
-        got = bs._autoregressive_bisection_search(lambda v: tri(v) - ystar, lower=jnp.asarray(case["lower"]), upper=jnp.asarray(case["upper"]), tol=tol, length=dim, max_iter=mi)
+        got = bs._autoregressive_bisection_search(lambda v: tri(v) - ystar, lower=_bound(case, "lower"), upper=_bound(case, "upper"), tol=tol, length=dim, max_iter=mi)
         err = float(jnp.max(jnp.abs(got - xstar)))
         bound = max(tol, 1e-12) * (3.0 ** dim) + 64 * EPS * max(1.0, float(jnp.max(jnp.abs(xstar))))
         return dict(ok=bool(err <= bound), observed=dict(found=np.asarray(got).tolist(), preimage=np.asarray(xstar).tolist(), max_err=err, bound=bound),
@@ -98,14 +103,14 @@ def _bisect_case(case):
         f = FUNCS[case["func"]](case["root"])
     r, lo, hi = case["root"], case["lower"], case["upper"]
     if which == "_adapt_interval_to_include_root":
-        a, b, n = bs._adapt_interval_to_include_root(f, lower=jnp.asarray(lo), upper=jnp.asarray(hi))
+        a, b, n = bs._adapt_interval_to_include_root(f, lower=_bound(case, "lower"), upper=_bound(case, "upper"))
         a, b = float(a), float(b)
         ok = a <= b and float(f(a)) <= 0 <= float(f(b)) and a - 1e-9 * max(1, abs(r)) <= r <= b + 1e-9 * max(1, abs(r))
         return dict(ok=bool(ok), observed=dict(lower=a, upper=b, iterations=int(n), f_lower=float(f(a)), f_upper=float(f(b))), required="lower <= root <= upper, f(lower) <= 0 <= f(upper)")
     tol, mi = case["tol"], case["max_iter"]
-    a, b, _ = bs._adapt_interval_to_include_root(f, lower=jnp.asarray(lo), upper=jnp.asarray(hi))
+    a, b, _ = bs._adapt_interval_to_include_root(f, lower=_bound(case, "lower"), upper=_bound(case, "upper"))
     W = float(b) - float(a)
-    root, n_adapt, n_it = bs._bisection_search(f, lower=jnp.asarray(lo), upper=jnp.asarray(hi), tol=tol, max_iter=mi)
+    root, n_adapt, n_it = bs._bisection_search(f, lower=_bound(case, "lower"), upper=_bound(case, "upper"), tol=tol, max_iter=mi)
     root = float(root)
     bound = max(tol, W / 2.0 ** (mi + 1)) + 8 * EPS * max(1.0, abs(r), abs(lo), abs(hi))
     err = abs(root - r)
@@ -584,6 +589,12 @@ def c03_configs(tier):
     cond_base = Dm.Transformed(Dm.StandardNormal((2,)), addc)
     cfg.append(("Transformed(conditional base, Affine) [conditional base, unconditional bijection]", Dm.Transformed(cond_base, aff()), 3))
     cfg.append(("Transformed(conditional base, conditional bijection)", Dm.Transformed(cond_base, B.Chain([aff(), addc])), 3))
+    # scalar (rank-0) conditioning variable: cond_shape == ()
+    adds = B.AdditiveCondition(lambda c: jnp.array([1.0, -2.0]) * c, (2,), ())
+    sbase = Dm.Transformed(Dm.StandardNormal((2,)), adds)
+    cfg.append(("Transformed(StandardNormal, AdditiveCondition) [scalar condition]", sbase, ()))
+    cfg.append(("Transformed(scalar-conditional base, Affine)", Dm.Transformed(sbase, aff()), ()))
+    cfg.append(("Transformed(scalar-conditional base, scalar-conditional Chain)", Dm.Transformed(sbase, B.Chain([aff(), adds])), ()))
     for name, fac, kw in (("coupling_flow", Fl.coupling_flow, {}), ("masked_autoregressive_flow", Fl.masked_autoregressive_flow, {}), ("planar_flow", Fl.planar_flow, dict(negative_slope=0.1))):
         for invert in (True, False):
             for cd in (None, 3):
@@ -606,9 +617,26 @@ def rt_c03(tier="quick", first_only=False, count=None):
         ud = unwrap(dist)
         for seed in (1, 2):
             key = jr.PRNGKey(seed)
-            cond = None if cd is None else jnp.asarray(np.random.default_rng(seed).normal(size=(cd,)))
+            cshape = None if cd is None else (cd if isinstance(cd, tuple) else (cd,))
+            cond = None if cd is None else jnp.asarray(np.random.default_rng(seed).normal(size=cshape))
             n += 1
             problems = []
+            if (dist.cond_shape is None) != (cshape is None) or (cshape is not None and tuple(dist.cond_shape) != cshape):
+                problems.append(f"declares cond_shape {dist.cond_shape} but its conditional children take a condition of shape {cshape}")
+            if cshape is not None and seed == 1:
+                # a batch of conditions: element i of the batched result is the unbatched call with condition i
+                conds = jnp.asarray(np.random.default_rng(7).normal(size=(3,) + cshape))
+                xq = jnp.asarray([0.3, -0.2])
+                try:
+                    lpb = dist.log_prob(xq, conds)
+                    ref_b = jnp.stack([dist.log_prob(xq, conds[i]) for i in range(3)])
+                    if jnp.shape(lpb) != (3,) or not bool(jnp.allclose(lpb, ref_b, rtol=1e-9, atol=1e-9)):
+                        problems.append(f"log_prob with a batch of 3 conditions = {np.asarray(lpb).tolist()} but condition by condition {np.asarray(ref_b).tolist()}")
+                    sb_ = dist.sample(key, condition=conds)
+                    if jnp.shape(sb_) != (3, 2):
+                        problems.append(f"sample with a batch of 3 conditions has shape {jnp.shape(sb_)}")
+                except Exception as ex:  # noqa: BLE001
+                    problems.append(f"a batch of conditions of shape {(3,) + cshape} is rejected: {type(ex).__name__}: {str(ex)[:120]}")
             s = dist.sample(key, condition=cond)
             base_cond = cond if ud.base_dist.cond_shape is not None else None
             bij_cond = cond if ud.bijection.cond_shape is not None else None
